@@ -101,6 +101,16 @@ def rule_date1(ctx: Ctx) -> RuleResult:
                     ok, why = False, "the two defaults do not differ in the date"
         else:
             why = f"{len(parses)} parse(s) with {len(distinct)} different default(s)"
+        # what is handed back is the naive part asked for: .date() / .time() of a parse (timetz() keeps an offset that the
+        # renderer cannot write for offsets of a day or more)
+        want = "date" if name == "is_date" else "time"
+        rets = [r for r in walk_no_nested(f.node) if isinstance(r, ast.Return) and r.value is not None]
+        for r in rets:
+            for c in ast.walk(r.value):
+                if isinstance(c, ast.Call) and isinstance(c.func, ast.Attribute) and c.func.attr in ("date", "time", "timetz", "timestamp",
+                                                                                                        "replace", "astimezone", "isoformat"):
+                    if c.func.attr != want and ok:
+                        ok, why = False, f"returns `.{c.func.attr}()` of the parse, not `.{want}()`"
         rr.ob(f.relpath, f.qualname, f"{len(parses)} parses, defaults {sorted(distinct)}"[:90], st, DISCHARGED if ok else VIOLATED,
               "differential test" if ok else why + f": a timestamp whose {part} equals the default's is typed as the wrong pseudo-type",
               f.node.lineno)
@@ -407,6 +417,10 @@ def rule_lookup2(ctx: Ctx) -> RuleResult:
             problems.append("a try/except around the lookup")
         if isinstance(n, ast.Call) and norm(n.func) == "getattr" and len(n.args) == 3:
             problems.append(f"`{norm(n)[:40]}` has a fallback")
+    for n in walk_no_nested(f.node):
+        if isinstance(n, ast.Call) and norm(n.func) in ("int", "float", "ast.literal_eval", "literal_eval", "json.loads", "eval"):
+            problems.append(f"`{norm(n)[:40]}` turns a component of the path into another kind of key: the object key \"200\" is looked up "
+                            f"as the number 200")
     steps = [n for n in walk_no_nested(f.node) if isinstance(n, ast.Subscript) and isinstance(n.ctx, ast.Load) and norm(n.value) == d]
     if not steps and not problems:
         raise AnalysisError("LOOKUP-2: dict_lookup no longer indexes its document")
@@ -514,4 +528,315 @@ def rule_eqcyc1(ctx: Ctx) -> RuleResult:
           "two models are compared through SingleType.__eq__, i.e. field by field and through the pointers in the fields: the "
           "comparison of two self-referential models does not end (RecursionError in merge_models), and pointers to two different "
           "models with equal fields count as one", f.node.lineno)
+    return rr
+
+
+# ---------------------------------------------------------------------------------------------------------------
+def rule_lay5(ctx: Ctx) -> RuleResult:
+    rr = RuleResult("LAY-5", "a model is a root when it has a pointer without a parent, also when others refer to it", floor=1)
+    f = ctx.prog.func(STRUCT, "extract_root")
+    st = ("extract_root and compose_models agree on what a root model is: one that has a pointer without a parent. A root "
+          "whose shape recurs below it has pointers of both kinds; asking for 'no pointer with a parent' misses it, the classes "
+          "it shares with its nested classes get no root, and the nested layout refers to them by a name that is not visible")
+    adds = [n for n in walk_no_nested(f.node) if isinstance(n, ast.Call) and isinstance(n.func, ast.Attribute) and n.func.attr in ("add", "append")
+            and "root" in norm(n.func.value)]
+    if not adds:
+        raise AnalysisError("LAY-5: extract_root no longer collects roots with add()/append()")
+    for a in adds:
+        rr.instances += 1
+        test = None
+        cur, par = a, f.module.parents.get(a)
+        while par is not None and par is not f.node:
+            if isinstance(par, ast.If) and any(cur is s_ or any(cur is y for y in ast.walk(s_)) for s_ in par.body):
+                test = par.test
+                break
+            cur, par = par, f.module.parents.get(par)
+        t = norm(test) if test is not None else ""
+        ok = test is not None and (".pointers" in t or "parent is None" in t or "parent is not None" in t or "has_root" in t)
+        rr.ob(f.relpath, f.qualname, norm(a)[:60], st, DISCHARGED if ok else VIOLATED,
+              f"under `{t[:60]}`" if ok else
+              f"under `{t[:60] or 'no test'}`: only a model that nothing refers to counts as a root; a recursive root is missed and "
+              f"`Root.a: 'A'` names a class that is nested in Root.D", a.lineno)
+    return rr
+
+
+# ---------------------------------------------------------------------------------------------------------------
+def rule_match1(ctx: Ctx) -> RuleResult:
+    rr = RuleResult("MATCH-1", "an input argument that names no existing file fails the run", floor=1)
+    f = ctx.prog.func(CLI, "Cli.setup_models_data")
+    mod = f.module
+    st = ("input that cannot be read ends the run before anything is written: a pattern that matches nothing is such input, like a "
+          "path that does not exist - it must not silently contribute no samples (the output file would be replaced by a module "
+          "without that model)")
+    via_local = {norm(a.targets[0]) for a in walk_no_nested(f.node) if isinstance(a, ast.Assign) and len(a.targets) == 1 and any(
+        isinstance(c, ast.Call) and norm(c.func).endswith("process_path") for c in ast.walk(a.value))}
+    loops = [n for n in walk_no_nested(f.node) if isinstance(n, ast.For) and (any(
+        isinstance(c, ast.Call) and norm(c.func).endswith("process_path") for c in ast.walk(n.iter)) or norm(n.iter) in via_local)]
+    lists = [n for n in walk_no_nested(f.node) if isinstance(n, ast.Assign) and isinstance(n.value, ast.Call) and
+             norm(n.value.func) in ("list", "tuple", "sorted") and any(isinstance(c, ast.Call) and norm(c.func).endswith("process_path")
+                                                                        for c in ast.walk(n.value))]
+    rr.instances += 1
+    ok, how = False, "no test for 'nothing matched' around the loop over process_path(...)"
+    for lp in loops:
+        flags = {norm(s_.targets[0]) for s_ in lp.body if isinstance(s_, ast.Assign) and isinstance(s_.value, ast.Constant) and s_.value.value is True}
+        counters = {norm(s_.target) for s_ in lp.body if isinstance(s_, ast.AugAssign)}
+        blk = None
+        from ..util import enclosing_block
+        blk = enclosing_block(mod, lp) or []
+        after = blk[blk.index(lp) + 1:] if lp in blk else []
+        for s_ in list(lp.orelse) + after:
+            if isinstance(s_, ast.If) and any(isinstance(x, ast.Raise) for b in s_.body for x in ast.walk(b)):
+                t = norm(s_.test)
+                for v in flags | counters:
+                    if t not in (f"not {v}", f"{v} is False", f"{v} == 0", f"not {v} > 0"):
+                        continue
+                    # the flag says 'nothing matched' until the loop says otherwise: it starts as False / 0 and nothing else binds it
+                    others = [a for a in walk_no_nested(f.node) if isinstance(a, (ast.Assign, ast.AnnAssign, ast.AugAssign)) and
+                              norm(a.targets[0] if isinstance(a, ast.Assign) else a.target) == v and not any(a is y for y in ast.walk(lp))]
+                    starts_false = len(others) == 1 and isinstance(others[0], ast.Assign) and isinstance(others[0].value, ast.Constant) \
+                        and others[0].value.value in (False, 0) and others[0].lineno < lp.lineno
+                    if starts_false:
+                        ok, how = True, f"`if {t}: raise` after the loop"
+                    else:
+                        how = (f"`{v}` is tested after the loop but is bound to something else as well ({', '.join(norm(o)[:30] for o in others)}): "
+                               f"it is not false when nothing matched")
+    for a in lists:
+        v = norm(a.targets[0])
+        if any(isinstance(s_, ast.If) and norm(s_.test) in (f"not {v}", f"len({v}) == 0") and any(isinstance(x, ast.Raise) for b in s_.body for x in ast.walk(b))
+               for s_ in walk_no_nested(f.node)):
+            ok, how = True, f"`if not {v}: raise` on the matched files"
+    if not loops and not lists:
+        raise AnalysisError("MATCH-1: setup_models_data no longer walks process_path(...)")
+    rr.ob(f.relpath, f.qualname, "for real_path in process_path(path_raw): ...", st, DISCHARGED if ok else VIOLATED,
+          how if ok else how + ": `-m A 'nomatch*.json' -o out.py` exits 0 and replaces out.py by a header-only module",
+          (loops[0].lineno if loops else lists[0].lineno))
+    return rr
+
+
+# ---------------------------------------------------------------------------------------------------------------
+def quoted_placeholders(tree: ast.AST) -> List[Tuple[ast.AST, str]]:
+    """String constants that are Jinja templates and wrap a `{{ placeholder }}` in quotes: the value is pasted between the quotes
+    unescaped (a quote or backslash in it ends or changes the literal)."""
+    import re as _re
+    out = []
+    for n in ast.walk(tree):
+        if isinstance(n, ast.Constant) and isinstance(n.value, str) and "{{" in n.value and "}}" in n.value:
+            for m in _re.finditer(r"""(['"])\s*\{\{[^{}]*\}\}\s*\1""", n.value):
+                inner = m.group(0)
+                if _re.fullmatch(r"""(['"])\{\{\s*(['"]).*\2\s*\}\}\1""", inner):
+                    continue        # {{ '...' }}: a literal, not a value
+                out.append((n, inner))
+    return out
+
+
+def rule_inj6(ctx: Ctx) -> RuleResult:
+    rr = RuleResult("INJ-6", "no template pastes a value between quotes", floor=1)
+    ctl = ast.parse("A = \"{{ key }}={{ value }}\"\nB = \"{'{{ k }}': '{{ v }}'}\"\nC = \"{{ '{' }}x{{ '}' }}\"\n")
+    if len(quoted_placeholders(ctl)) != 2:
+        raise AnalysisError(f"INJ-6: positive control failed ({len(quoted_placeholders(ctl))})")
+    st = ("text that ends up inside a string literal of the generated module is rendered by an escaper that is exact for every "
+          "string (repr / json.dumps with ensure_ascii=False, INJ-2 / INJ-3) before it reaches the template; a template that writes "
+          "`'{{ value }}'` pastes the raw text between quotes")
+    n = 0
+    for m in ctx.prog.pkg_modules():
+        n += 1
+        for node, text in quoted_placeholders(m.tree):
+            rr.instances += 1
+            f = m.func_of_node(node)
+            rr.ob(m.relpath, f.qualname if f else "<module>", text[:60], st, VIOLATED,
+                  f"`{text}`: a key such as C:\\\\temp\\\\new is read back with a TAB and a NEWLINE in it, and a key with an apostrophe makes "
+                  f"the generated module a SyntaxError", node.lineno)
+    rr.instances += 1
+    rr.ob("json_to_models", "<package>", f"{n} modules", st, DISCHARGED, "no quoted placeholder in a template (positive control matched)", 1)
+    return rr
+
+
+# ---------------------------------------------------------------------------------------------------------------
+def truth_of_elements(tree: ast.AST) -> List[Tuple[ast.Call, str]]:
+    """`any(xs)` / `all(xs)` applied to a collection itself (not to a generator of conditions): it asks for the truth of the
+    ELEMENTS, and an element can be a legitimate falsy value (the empty string among literals, 0, an empty list)."""
+    out = []
+    for n in ast.walk(tree):
+        if isinstance(n, ast.Call) and norm(n.func) in ("any", "all") and len(n.args) == 1 and isinstance(n.args[0], (ast.Name, ast.Attribute)):
+            out.append((n, norm(n.args[0])))
+    return out
+
+
+def rule_anyelem1(ctx: Ctx) -> RuleResult:
+    rr = RuleResult("ANYELEM-1", "emptiness of a collection of observed values is not asked of its elements", floor=1)
+    ctl = ast.parse("a = not any(meta.literals)\nb = any(len(s) > 3 for s in xs)\nc = any(map(f, xs))\n")
+    if len(truth_of_elements(ctl)) != 1:
+        raise AnalysisError("ANYELEM-1: positive control failed")
+    st = ("whether a set of observed strings / types is empty is asked with `not xs` or `len(xs)`; `any(xs)` is false for a set that "
+          "holds only the empty string (or 0, or an empty container), which is a value like any other")
+    n = 0
+    for f in sorted(ctx.lib_cone, key=lambda x: x.key):
+        n += 1
+        for call, what in truth_of_elements(f.node):
+            if any(isinstance(g, (ast.FunctionDef, ast.Lambda)) and g is not f.node and any(call is y for y in ast.walk(g)) for g in ast.walk(f.node)):
+                continue
+            rr.instances += 1
+            rr.ob(f.relpath, f.qualname, norm(call)[:60], st, VIOLATED,
+                  f"`{norm(call)}` tests the elements of `{what}`: a position where the only string ever seen is \"\" counts as 'no "
+                  f"literal at all' and is widened to str", call.lineno)
+    rr.instances += 1
+    rr.ob("json_to_models", "<library>", f"{n} functions", st, DISCHARGED, "no any()/all() on a collection itself (positive control matched)", 1)
+    if n < 40:
+        raise AnalysisError(f"ANYELEM-1: only {n} functions in scope")
+    return rr
+
+
+# ---------------------------------------------------------------------------------------------------------------
+def rule_genpure1(ctx: Ctx) -> RuleResult:
+    rr = RuleResult("GENPURE-1", "rendering a model does not change the model", floor=1)
+    base = ctx.prog.cls(BASE, "GenericModelCodeGenerator")
+    st = ("apart from the constructor (which gives the model its normalised class name), no method of a code generator assigns to, "
+          "deletes from or calls a mutator on `self.model` or what hangs below it: the same registry is rendered again - for another "
+          "framework, another layout - from the same fields")
+    from .misc import MUTATORS
+    n = 0
+    for c in ctx.prog.subclasses(base):
+        for ms in c.methods.values():
+            for f in ms:
+                if f.name == "__init__":
+                    continue
+                n += 1
+                # locals that alias (a part of) the model
+                alias = {"self.model"}
+                changed = True
+                while changed:
+                    changed = False
+                    for a in walk_no_nested(f.node):
+                        if isinstance(a, ast.Assign) and len(a.targets) == 1 and isinstance(a.targets[0], ast.Name) and \
+                                isinstance(a.value, (ast.Attribute, ast.Name, ast.Subscript)) and any(
+                                norm(a.value) == al or norm(a.value).startswith(al + ".") or norm(a.value).startswith(al + "[") for al in alias):
+                            if a.targets[0].id not in alias:
+                                alias.add(a.targets[0].id)
+                                changed = True
+
+                def rooted(e: ast.AST) -> bool:
+                    t = norm(e)
+                    return any(t == al or t.startswith(al + ".") or t.startswith(al + "[") for al in alias)
+                for x in walk_no_nested(f.node):
+                    bad = None
+                    if isinstance(x, (ast.Assign, ast.AugAssign, ast.AnnAssign)):
+                        for t in (x.targets if isinstance(x, ast.Assign) else [x.target]):
+                            if isinstance(t, (ast.Attribute, ast.Subscript)) and rooted(t.value):
+                                bad = x
+                    elif isinstance(x, ast.Delete):
+                        for t in x.targets:
+                            if isinstance(t, (ast.Attribute, ast.Subscript)) and rooted(t.value):
+                                bad = x
+                    elif isinstance(x, ast.Call) and isinstance(x.func, ast.Attribute) and x.func.attr in MUTATORS and rooted(x.func.value):
+                        bad = x
+                    if bad is not None:
+                        rr.instances += 1
+                        rr.ob(f.relpath, f.qualname, norm(bad)[:70], st, VIOLATED,
+                              f"`{norm(bad)[:50]}` changes the model while it is rendered: the next rendering from this registry (attrs after "
+                              f"pydantic) misses the field and hands out other names", bad.lineno)
+    rr.instances += 1
+    rr.ob(BASE, "GenericModelCodeGenerator and subclasses", f"{n} methods", st, DISCHARGED, "no write to self.model outside __init__", 1)
+    if n < 15:
+        raise AnalysisError(f"GENPURE-1: only {n} generator methods")
+    return rr
+
+
+# ---------------------------------------------------------------------------------------------------------------
+def rule_closure1(ctx: Ctx) -> RuleResult:
+    rr = RuleResult("CLOSURE-1", "the groups of similar models are joined until nothing changes", floor=1)
+    f = ctx.prog.func(REG, "ModelRegistry.merge_models")
+    st = ("two models end up in one class iff a chain of similar pairs connects them: overlapping groups are joined to a fixed point "
+          "(a loop that runs while a pass changed something, or a union-find), not for a fixed number of passes")
+    rr.instances += 1
+    bounded = []
+    for lp in walk_no_nested(f.node):
+        if isinstance(lp, ast.For) and isinstance(lp.iter, ast.Call) and norm(lp.iter.func) == "range":
+            rebinds = any(isinstance(x, (ast.Assign, ast.AnnAssign)) and "groups" in norm(x.targets[0] if isinstance(x, ast.Assign) else x.target)
+                          for x in ast.walk(lp))
+            joins = any(isinstance(x, ast.BinOp) and isinstance(x.op, ast.BitOr) for x in ast.walk(lp)) or any(
+                isinstance(x, ast.Call) and isinstance(x.func, ast.Attribute) and x.func.attr in ("union", "update") for x in ast.walk(lp))
+            if rebinds and joins:
+                bounded.append(lp)
+    fixed = [lp for lp in walk_no_nested(f.node) if isinstance(lp, ast.While) and any(
+        isinstance(x, ast.BinOp) and isinstance(x.op, ast.BitOr) or (isinstance(x, ast.Call) and isinstance(x.func, ast.Attribute)
+                                                                      and x.func.attr in ("union", "update")) for x in ast.walk(lp))]
+    dsu = any(isinstance(g, ast.FunctionDef) and g.name in ("find", "_find", "find_root", "root_of") for g in ast.walk(f.node))
+    if bounded:
+        lp = bounded[0]
+        rr.ob(f.relpath, f.qualname, f"for {norm(lp.target)} in {norm(lp.iter)}: ...", st, VIOLATED,
+              f"the joining passes are bounded by `{norm(lp.iter)}`: a chain of similar models that needs more passes stays split into "
+              f"several classes (16 chained models -> classes of 10, 2, 2 and 2)", lp.lineno)
+    elif fixed or dsu:
+        rr.ob(f.relpath, f.qualname, "while <changed>: join overlapping groups" if fixed else "union-find", st, DISCHARGED,
+              "runs to a fixed point", (fixed[0].lineno if fixed else f.node.lineno))
+    else:
+        raise AnalysisError("CLOSURE-1: the loop that joins overlapping groups was not found in merge_models")
+    return rr
+
+
+# ---------------------------------------------------------------------------------------------------------------
+SITE_BUILTINS = ("copyright", "credits", "exit", "help", "license", "quit")
+
+
+def rule_envdep1(ctx: Ctx) -> RuleResult:
+    rr = RuleResult("ENVDEP-1", "what the library emits does not depend on what else is installed or how the interpreter was started", floor=2)
+    st = ("the same command gives the same module in every process: the library probes neither for optional packages "
+          "(try: import ... except ImportError feeding a table) nor for what the interpreter happens to have loaded")
+    n = 0
+    for m in ctx.prog.pkg_modules():
+        if m.relpath.endswith(("cli.py", "__main__.py")):
+            continue            # (the command line chooses a YAML parser by what is installed: input side, documented)
+        n += 1
+        for t in ast.walk(m.tree):
+            if isinstance(t, ast.Try):
+                for h in t.handlers:
+                    names = [] if h.type is None else [norm(x) for x in (h.type.elts if isinstance(h.type, ast.Tuple) else [h.type])]
+                    if any(nm in ("ImportError", "ModuleNotFoundError") for nm in names):
+                        rr.instances += 1
+                        f = m.func_of_node(t)
+                        rr.ob(m.relpath, f.qualname if f else "<module>", norm(t.body[0])[:60], st, VIOLATED,
+                              "an optional import decides what the library does: with the package missing (or another release of it) the "
+                              "same input gives other names", t.lineno)
+            if isinstance(t, ast.Call) and norm(t.func) in ("importlib.util.find_spec", "find_spec", "pkg_resources.get_distribution",
+                                                             "importlib.metadata.version", "metadata.version", "os.getenv", "os.environ.get"):
+                rr.instances += 1
+                f = m.func_of_node(t)
+                rr.ob(m.relpath, f.qualname if f else "<module>", norm(t)[:60], st, VIOLATED,
+                      f"`{norm(t)[:40]}` reads the environment of the process", t.lineno)
+    # the builtins of the running interpreter are part of the black-list: the names `site` adds must be there in any case
+    base = ctx.prog.module(BASE)
+    uses_builtins = any(isinstance(x, ast.Name) and x.id == "__builtins__" or norm(x) == "dir(builtins)" for x in ast.walk(base.tree))
+    rr.instances += 1
+    if uses_builtins:
+        consts = {c.value for c in ast.walk(base.tree) if isinstance(c, ast.Constant) and isinstance(c.value, str)}
+        missing = [s_ for s_ in SITE_BUILTINS if s_ not in consts]
+        rr.ob(BASE, "<module>", "builtins of the running interpreter", "the names the `site` module adds to the builtins are black-listed "
+              "whether or not `site` was loaded (python -S)", VIOLATED if missing else DISCHARGED,
+              f"{missing} are black-listed only when `site` has put them among the builtins: `python -S` names the field `license`, "
+              f"the usual start-up `license_`" if missing else "spelled out", 1)
+    else:
+        rr.ob(BASE, "<module>", "black-list", "independent of the interpreter's builtins", DISCHARGED, "not derived from __builtins__", 1)
+    rr.instances += 1
+    rr.ob("json_to_models", "<library>", f"{n} modules", st, DISCHARGED, "no optional import, no environment probe", 1)
+    return rr
+
+
+# ---------------------------------------------------------------------------------------------------------------
+def rule_regexval1(ctx: Ctx) -> RuleResult:
+    rr = RuleResult("REGEXVAL-1", "a regular expression given on the command line is compiled while the arguments are processed", floor=1)
+    from .cli_flow import Flow, value_ops
+    fl = Flow(ctx)
+    ops = value_ops(ctx, fl).get("dict_keys_regex", {})
+    st = ("an invalid --dict-keys-regex ends the run while the arguments are processed (before any output is opened), whatever the "
+          "samples look like: the command line compiles each expression itself instead of leaving that to the first object that "
+          "happens to be matched against it")
+    rr.instances += 1
+    comp = [(d, v) for d, v in ops.items() if d.startswith("re.compile(") or d.startswith("compile(")]
+    early = [v for d, v in comp if v[0].qualname in ("Cli.set_args", "Cli.parse_args", "Cli.validate")]
+    f = ctx.prog.func(CLI, "Cli.set_args")
+    rr.ob(CLI, early[0][0].qualname if early else "Cli.set_args", norm(early[0][1])[:60] if early else "self.dict_keys_regex = ...", st,
+          DISCHARGED if early else VIOLATED,
+          "compiled in " + early[0][0].qualname if early else
+          "the expressions reach the library as text: `--dkr 'id_(\\\\d+'` with samples that hold no non-empty nested object exits 0 and "
+          "writes the output", (early[0][1].lineno if early else f.node.lineno))
     return rr
